@@ -99,7 +99,11 @@ RULE = ("plays = JSON trees of mappings (string / int / float / bool / null keys
         "ENOENT, EMFILE, ENFILE, EISDIR, ESTALE, EPERM, ENOMEM, EINTR, or without errno), EOFError, ZipImportError, "
         "returns None, b'', blank / comment-only / non-YAML / wrongly shaped text, or the intact list cut at 0-99.9 %; "
         "oracle for those reads: a play that has to be refused (revoked, edited, wrongly signed, no digest) is not "
-        "accepted - the kind of failure and the fate of acceptable plays are not asserted.")
+        "accepted - the kind of failure and the fate of acceptable plays are not asserted. shared, reference edits "
+        "(about a third of the variants): the two plays have the same scalars and keys and differ only in which node ONE "
+        "reference denotes - retargeted to another shared node (same kind preferred), two references swapped, replaced by "
+        "a copy of its node (same value, another object) or by a copy of another node; references numbered in "
+        "serialisation order, late occurrences preferred; such cases share 1-3 different nodes, containers preferred.")
 ASSUMPTIONS = [
     "the digest is observed as hash_play(serialize_play(exclude_dynamic_elements(play))) - the exact "
     "composition verify_play hands to GPG (sub-checks presence/verify confirm that this value reaches "
@@ -116,6 +120,10 @@ ASSUMPTIONS = [
     "representation graph); an excluded element is an entry of its node and is removed from that node wherever "
     "the node is referenced. When the *value* of an excluded element is itself still referenced from a "
     "non-excluded place, a change of that value is neither required to change the digest nor to keep it",
+    "shared, reference edits: a reference and a copy of the node it denotes are the same value (equal expanded cleaned "
+    "forms => equal digests, as for two spellings of a scalar); 'differs outside the excluded elements' is demanded only "
+    "when the changed reference is written outside the requested elements AND the plays differ outside them both when "
+    "read as trees (every reference expanded in place) and when read as graphs",
     "playbook: 'rejected' / 'verification error' at the entry point = non-zero exit status; accepted = exit "
     "status 0 (what is printed is not asserted); SKIP_VERIFY is removed from the environment for the run",
     "two floats are different values iff their repr differs (every double has its own shortest repr; -0.0 and 0.0 "
@@ -2130,6 +2138,87 @@ def with_shared_nodes(plain, share):
     return tree, defs, applied
 
 
+# ---- edits of the reference structure itself (round 7) ---------------------------------------------
+# variant["refs"] = [{"op": ..., "occ": n, "to": n}, ...]: applied to play b AFTER the sharing requests, so that the two
+# plays have the same scalars / keys everywhere and differ only in WHICH node one reference denotes:
+#   retarget      the reference now denotes another shared node (`*a0` -> `*a1`)
+#   swap          two references to different shared nodes change places
+#   inline        the reference is replaced by a copy of the node it denoted (same value, no longer the same object)
+#   inline-other  ... by a copy of another shared node
+# References are numbered in serialisation order (a shared node's content is visited where it occurs first), `occ`
+# counts from the END (small draws = late occurrences = references to nodes that have been met before).
+
+REF_OPS = ["retarget", "retarget", "swap", "inline", "inline-other"]
+
+
+def _ref_slots(tree, defs):
+    """-> [(holder, index, path)] of every {"ref": ...} node, serialisation order; path = keys / indexes from the play
+    through the first occurrences (None for a key that is not a string)"""
+    out, done = [], set()
+
+    def walk(n, path):
+        if "m" in n:
+            seq = [(kv, 1, kv[0].get("s")) for kv in n["m"]]
+        elif "l" in n:
+            seq = [(n["l"], i, i) for i in range(len(n["l"]))]
+        else:
+            return
+        for holder, i, step in seq:
+            v = holder[i]
+            if "ref" in v:
+                out.append((holder, i, path + [step]))
+                if v["ref"] not in done:
+                    done.add(v["ref"])
+                    walk(defs[v["ref"]], path + [step])
+            else:
+                walk(v, path + [step])
+
+    walk(tree, [])
+    return out
+
+
+def _kind(n):
+    return "m" if "m" in n else "l" if "l" in n else "scalar"
+
+
+def _ref_edit(tree, defs, op):
+    """apply one edit of the reference structure in place -> None (does not apply) | {"op", "path", "kinds"}"""
+    slots = _ref_slots(tree, defs)
+    if not slots:
+        return None
+    holder, i, path = slots[-1 - op["occ"] % len(slots)]
+    cur = holder[i]["ref"]
+    # the other shared nodes, those of the same kind (sequence / mapping / string) first
+    others = sorted((r for r in defs if r != cur), key=lambda r: (_kind(defs[r]) != _kind(defs[cur]), r))
+    kind = op["op"] if others else "inline"         # a play with one shared node: nothing to go to
+    if kind == "inline":
+        holder[i] = copy.deepcopy(defs[cur])
+        info = {"op": kind, "path": path, "kinds": _kind(defs[cur])}
+    else:
+        new = others[op["to"] % len(others)]
+        info = {"op": kind, "path": path, "kinds": _kind(defs[cur]) + ">" + _kind(defs[new])}
+        if kind == "retarget":
+            holder[i] = {"ref": new}
+        elif kind == "inline-other":
+            holder[i] = copy.deepcopy(defs[new])
+        else:       # swap with the closest earlier reference to another node
+            k = len(slots) - 1 - op["occ"] % len(slots)
+            earlier = [s for s in slots[:k] if s[0][s[1]]["ref"] != cur]
+            if not earlier:
+                return None
+            h2, i2, p2 = earlier[-1 - op["to"] % len(earlier)]
+            info = {"op": kind, "path": path, "path2": p2, "kinds": _kind(defs[cur]) + ">" + _kind(defs[h2[i2]["ref"]])}
+            holder[i], h2[i2] = h2[i2], holder[i]
+    if not _acyclic(tree, defs):
+        return None
+    return info
+
+
+def _inside_excluded(path, requests):
+    """is the place `path` of the document written inside one of the requested elements?"""
+    return any(path[:len(parts)] == parts for parts in requests)
+
+
 def build_shared(n, defs, memo):
     if "ref" in n:
         rid = n["ref"]
@@ -2161,8 +2250,17 @@ def check_shared(case):
     mode = case["mode"]
     labels = ["mode=" + mode]
 
-    def materialise(plain):
+    def materialise(plain, refs=None):
         tree, defs, applied = with_shared_nodes(plain, case["share"])
+        if refs is not None:
+            done = []
+            for op in refs:
+                t2, d2 = copy.deepcopy((tree, defs))
+                info = _ref_edit(t2, d2, op)
+                if info is not None:
+                    tree, defs = t2, d2
+                    done.append(info)
+            refs[:] = done
         if mode != "yaml":
             return build_shared(tree, defs, {}), None, applied
         text = emit_yaml(tree, defs)
@@ -2173,6 +2271,15 @@ def check_shared(case):
         if not isinstance(doc, list) or len(doc) != 1 or not isinstance(doc[0], dict):
             raise HarnessError("emitted YAML is not a one-play playbook: %r" % text)
         return doc[0], text, applied
+
+    def tree_cleaned(p):
+        """cleaned canonical form of the play read as a TREE (every reference expanded where it stands, elements
+        excluded by their place in the document); None: no such form"""
+        try:
+            m = model_clean(canon(p))
+        except (TypeError, IndexError, KeyError, AttributeError):
+            return None
+        return m[1] if m[0] == "ok" else None
 
     def digest_of(p):
         """-> ("ok", digest, model's cleaned canon, canon of the real cleaned play) | ("err" | "skip", why)"""
@@ -2206,6 +2313,7 @@ def check_shared(case):
                                         for x in item["src"]))
     if pa is None:
         return {"nontrivial": False, "labels": labels + ["yaml-a-unloadable"]}
+    tca = tree_cleaned(pa) if any(v.get("refs") for v in case["bs"]) else None
     oa = digest_of(pa)
     labels.append("a:" + oa[0] + ("" if oa[0] == "ok" else "/" + oa[1]))
     if oa[0] != "ok":
@@ -2222,23 +2330,42 @@ def check_shared(case):
     for variant in case["bs"]:
         lab = ["edit=" + variant["edit"], "region=" + variant["region"]]
         plain_b = norm(variant["b"])
-        pb, tb, _n = materialise(plain_b)
+        refs = copy.deepcopy(variant["refs"]) if variant.get("refs") else None
+        pb, tb, _n = materialise(plain_b, refs)
+        if variant.get("refs"):
+            if not refs:
+                labels += lab + ["ref-edit/not-applicable"]
+                continue
+            lab += ["ref-edit=%s/%s" % (r["op"], r["kinds"]) for r in refs]
         if pb is None:
             labels += lab + ["yaml-b-unloadable"]
             continue
+        tcb = tree_cleaned(pb) if refs else None
         ob = digest_of(pb)
         if ob[0] != "ok":
             labels += lab + ["b:" + ob[0] + "/" + ob[1]]
             continue
         det = {"yaml_a": ta, "yaml_b": tb} if ta is not None else {}
+        if refs:
+            det["reference_edit"] = refs
         pcb = _plain_cleaned(plain_b)
         only_excluded = pca is not None and pca == pcb     # the two documents differ in excluded elements only
+        if refs:
+            # the scalars and keys of the two plays are the same, one reference denotes another node.  "Differs
+            # outside the excluded elements" is demanded only where every reading of the statement agrees: the
+            # reference that changed is written outside the requested elements, the plays read as trees differ
+            # outside them, and (next branch) so do the plays read as graphs
+            requests = _parse_requests(str(pa["vars"][EXCL]))[1]
+            places = [r[k] for r in refs for k in ("path", "path2") if k in r]
+            only_excluded = (tca is None or tcb is None or tca == tcb
+                             or all(_inside_excluded(pl, requests) for pl in places))
         if oa[2] == ob[2]:
             if oa[1] != ob[1]:
                 raise Violation("the digest changed although nothing outside the excluded elements changed "
                                 "(play with shared nodes: %s)" % case["share"],
                                 cleaned=oa[2], digest_a=oa[1].hex(), digest_b=ob[1].hex(), **det)
-            lab.append("same-cleaned" + ("/excluded-part-differs" if plain_a != plain_b else "/identical-plays"))
+            lab.append("same-cleaned" + ("/reference-structure-differs" if refs else
+                                         "/excluded-part-differs" if plain_a != plain_b else "/identical-plays"))
         elif only_excluded:
             # the changed excluded element is still referenced from a place that is not excluded: whether that
             # counts as "only excluded elements change" is not decided by the statement
@@ -2252,12 +2379,15 @@ def check_shared(case):
             keys.append([oa[2], ob[2]])
         if ob[3] != ob[2]:
             late.append(("b", ob))
+        if refs:
+            lab.append("ref-edit:" + lab[-1])
         labels += lab
     for which, o in late:
         raise Violation("exclude_dynamic_elements did not remove exactly the requested elements from the nodes they "
                         "belong to (play %s, shared nodes: %s)" % (which, case["share"]), cleaned=o[3], expected=o[2],
                         **({"yaml_a": ta} if ta else {}))
-    nt = nt or (applied > 0 and any("same-cleaned/excluded-part-differs" in l for l in labels))
+    nt = nt or (applied > 0 and any("same-cleaned/excluded-part-differs" in l or "same-cleaned/reference-structure-differs" in l
+                                    for l in labels))
     return {"nontrivial": nt, "labels": labels, "key": [oa[2], keys]}
 
 
@@ -2265,8 +2395,9 @@ def _shareable(n):
     return "m" in n or "l" in n or "s" in n
 
 
-def _share_candidates(tree):
+def _share_candidates(tree, containers_only=False):
     cands = []
+    _shareable = (lambda n: "m" in n or "l" in n) if containers_only else globals()["_shareable"]
     for k, v in tree["m"]:
         if "s" not in k or not _shareable(v):
             continue
@@ -2285,13 +2416,38 @@ def _share_candidates(tree):
 def _shared_case(draw):
     tree, excluded = draw(_play(signed=draw(st.booleans())))
     cands = _share_candidates(tree)
+    # which of the two variants change the reference structure only (the plays then need references to choose from)
+    ref_variant = [draw(st.sampled_from([False, True, False])) for _ in range(2)]
     share = []
-    for _ in range(draw(st.sampled_from([1, 1, 2]))):
-        share.append({"src": _pick(draw, cands),
+    # (vars is a mapping, so there always is a container to share; strings are immutable - which node a reference to a
+    # string denotes cannot matter to code that works on identities - and get a third of the requests there)
+    conts = _share_candidates(tree, containers_only=True)
+    for _ in range(draw(st.sampled_from([2, 2, 1, 3] if any(ref_variant) else [1, 1, 2]))):
+        pool = cands
+        if any(ref_variant):        # different nodes, so that a reference has another node to go to
+            taken = [item["src"] for item in share]
+            pool = [c for c in (conts if conts and draw(st.sampled_from([True, True, False])) else cands)
+                    if c not in taken] or cands
+            if taken and draw(st.booleans()):
+                # ... and of the same kind as the first one (two sequences, two mappings, two strings): the change
+                # of a reference that is closest to no change at all
+                def kind_at(path):
+                    slot = _slot_at(tree, {}, path)
+                    return _kind(slot[0][slot[1]])
+                pool = [c for c in pool if kind_at(c) == kind_at(taken[0])] or pool
+        share.append({"src": _pick(draw, pool),
                       "sites": [{"where": draw(st.sampled_from(["task", "task", "top", "vars"])), "front": draw(st.booleans())}
                                 for _s in range(draw(st.sampled_from([1, 1, 2])))]})
+        for site in share[-1]["sites"]:     # vars inside vars / tasks inside a task: the node would contain itself
+            if [site["where"], share[-1]["src"]] in (["vars", ["vars"]], ["task", ["tasks"]]):
+                site["where"] = "top"
     bs = []
-    for _ in range(2):
+    for is_ref in ref_variant:
+        if is_ref:
+            bs.append({"b": copy.deepcopy(tree), "edit": "none", "region": "any",
+                       "refs": [{"op": draw(st.sampled_from(REF_OPS)), "occ": draw(st.integers(0, 5)),
+                                 "to": draw(st.integers(0, 3))}]})
+            continue
         kind = draw(st.sampled_from(EDITS))
         region = draw(st.sampled_from(["any", "excluded"]))
         if kind == "none":
